@@ -94,6 +94,10 @@ fn csv_field(s: &str) -> String {
     }
 }
 
+pub fn join_csv(fields: &[String]) -> String {
+    fields.iter().map(|f| if f.is_empty() { String::new() } else { csv_field(f) }).collect::<Vec<_>>().join(",")
+}
+
 /// writes every non-ASCII character (and a few ASCII ones) as \u escape
 pub fn escape_u(s: &str, braces: bool) -> String {
     let mut r = String::new();
@@ -142,7 +146,8 @@ impl Lexicon {
         refs.iter().map(|r| self.ref_text(r, system)).collect::<Vec<_>>().join("/")
     }
 
-    pub fn row_csv(&self, e: &Entry, system: Option<&Lexicon>) -> String {
+    /// raw (unquoted) values of the 19 CSV columns
+    pub fn row_fields(&self, e: &Entry, system: Option<&Lexicon>) -> Vec<String> {
         let (key, head) = if e.escape {
             (escape_u(&e.key, e.key.len() % 2 == 0), escape_u(&e.headword, false))
         } else {
@@ -163,28 +168,31 @@ impl Lexicon {
         } else {
             e.synonyms.iter().map(|x| format!("{:06}", x)).collect::<Vec<_>>().join("/")
         };
-        let fields: Vec<String> = vec![
-            csv_field(&key),
+        vec![
+            key,
             e.left.to_string(),
             e.right.to_string(),
             e.cost.to_string(),
-            csv_field(&head),
-            csv_field(&e.pos[0]),
-            csv_field(&e.pos[1]),
-            csv_field(&e.pos[2]),
-            csv_field(&e.pos[3]),
-            csv_field(&e.pos[4]),
-            csv_field(&e.pos[5]),
-            csv_field(&e.reading),
-            csv_field(&e.norm),
+            head,
+            e.pos[0].clone(),
+            e.pos[1].clone(),
+            e.pos[2].clone(),
+            e.pos[3].clone(),
+            e.pos[4].clone(),
+            e.pos[5].clone(),
+            e.reading.clone(),
+            e.norm.clone(),
             dic_form,
             e.mode.to_string(),
-            csv_field(&self.refs_text(&e.split_a, system)),
-            csv_field(&self.refs_text(&e.split_b, system)),
-            csv_field(&self.refs_text(&e.word_structure, system)),
+            self.refs_text(&e.split_a, system),
+            self.refs_text(&e.split_b, system),
+            self.refs_text(&e.word_structure, system),
             syn,
-        ];
-        fields.join(",")
+        ]
+    }
+
+    pub fn row_csv(&self, e: &Entry, system: Option<&Lexicon>) -> String {
+        join_csv(&self.row_fields(e, system))
     }
 
     pub fn to_csv(&self, system: Option<&Lexicon>) -> String {
